@@ -8,4 +8,12 @@ pub open spec fn hard_tanh(t: real, lo: real, hi: real) -> real { if t > hi { hi
 pub open spec fn hard_shrink(t: real, lam: real) -> real { if t > lam || t < -lam { t } else { 0real } }
 pub open spec fn hard_sigmoid(t: real) -> real { if t <= 0real - 3real { 0real } else if t >= 3real { 1real } else { t / 6real + 1real / 2real } }
 
+// first index holding the maximum of y[0..n]
+pub open spec fn argmax_idx(y: V, n: int) -> int
+    decreases n
+{
+    if n <= 1 { 0 } else { let j = argmax_idx(y, n - 1); if y[n - 1] > y[j] { n - 1 } else { j } }
+}
+pub open spec fn is_max_at(y: V, c: int) -> bool { forall|i: int| 0 <= i < y.len() ==> y[i] <= y[c] }
+
 // ---- end textbook_spec ----
